@@ -2,6 +2,7 @@
 // linked into every property binary (property translation units do not include rapidcheck).
 #include "vcore.hpp"
 #include <rapidcheck.h>
+#include <ctime>
 
 extern "C" void __sanitizer_set_death_callback(void (*)(void)) __attribute__((weak));
 
@@ -212,10 +213,21 @@ static int run_rc(const PropDef& p, const std::string& out, const std::string& r
 
   g_crash_path = replay_dir + "/" + p.name + "-" + g_target + "-crash-" + std::to_string((long)getpid()) + ".case";
 
+  // shrinking budget: once a failure has been seen, at most this many further executions / seconds are spent on shrinking;
+  // afterwards every candidate is reported as passing, which ends rapidcheck's shrink loop at the smallest failure found so far
+  uint64_t shrink_runs = 0;
+  const uint64_t shrink_max_runs = 600;
+  time_t shrink_t0 = 0;
+  const int shrink_max_seconds = 20;
+
   bool ok = rc::check(p.name + " [" + p.variant + "]", [&]() {
     std::vector<uint32_t> tape = *tapeGen;
     if (p.enum_count) tape[0] = *enumGen;
     size_t used = 0;
+    if (seen_failure) {
+      if (shrink_t0 == 0) shrink_t0 = time(nullptr);
+      if (++shrink_runs > shrink_max_runs || time(nullptr) - shrink_t0 > shrink_max_seconds) return;
+    }
     run_one(p, tape, ctx, &used);
     if (!seen_failure) {
       // statistics are collected only during the search phase, never while shrinking
